@@ -172,6 +172,37 @@ func TestC15(t *testing.T) {
 	// (b) + (c) sampled
 	checkRapid(t, c, func(rt *rapid.T) {
 		c.Eval()
+		if gen.Pick(rt, "field_with_payload", 4) == 0 {
+			// the header of a complete field (a lookup result that a constructor has given its value and mask):
+			// the packed word is the first four bytes of the field's own encoding, and unpacking it gives the
+			// header back - whatever kind of payload object the field carries
+			g := gen.New(rt, 400)
+			f, _, fname := g.Field()
+			if f.Class == 0xffff {
+				return // experimenter class: the 32-bit word is followed by the experimenter id, packed separately
+			}
+			b, fr, _ := safeMarshal(f)
+			if fr != "" || len(b) < 4 {
+				return
+			}
+			var w uint32
+			if pf, pm := safeCall(func() { w = f.MarshalHeader() }); pf != "" {
+				c.Report(rt, "C15|header-of-field|panic|"+pf, pm, fname)
+				return
+			}
+			c.NonTrivial(ev.HashStr("field-header", fname, fmt.Sprint(w)))
+			c.Label("header_of_complete_field")
+			if enc := binary.BigEndian.Uint32(b); enc != w {
+				c.Report(rt, "C15|header-of-field|pack-differs-from-encoding", fmt.Sprintf("%s: MarshalHeader() = %#08x, the field's encoding starts with %#08x (%s)", fname, w, enc, hx(b)), fname)
+				return
+			}
+			back := new(of.MatchField)
+			hb := []byte{byte(w >> 24), byte(w >> 16), byte(w >> 8), byte(w)}
+			if err := back.UnmarshalHeader(hb); err != nil || hdrOf(back) != hdrOf(f) {
+				c.Report(rt, "C15|header-of-field|unpack-differs", fmt.Sprintf("%s: header %+v packs to %#08x, which unpacks to %+v (err %v)", fname, hdrOf(f), w, hdrOf(back), err), fname)
+			}
+			return
+		}
 		if gen.Pick(rt, "mode", 3) == 0 {
 			w := rapid.OneOf(rapid.Uint32(), rapid.SampledFrom([]uint32{0, 0xffffffff, 0xffff0002, 0xffff00ff, 0x80000000, 0x0001ff00, 0x00010204, 0xffff5402})).Draw(rt, "word")
 			c.NonTrivial(ev.HashStr("word", fmt.Sprint(w)))
